@@ -7,7 +7,7 @@ from typing import Dict, List, Optional, Set
 
 from ..astutil import arg_of, call_name, calls, enclosing_loops, guards, kwarg, last_attr, stmt_key, txt, walk_local
 from ..cfg import CFG
-from ..flow import bound_from, provenance
+from ..flow import inline_locals, bound_from, provenance
 from ..index import AnalysisError, ClassInfo, dotted
 from ..kernel import OutsideFragment, decide, parse, rename
 from ..report import Ctx
@@ -159,11 +159,8 @@ def r01_2(ctx: Ctx) -> None:
         plain = [i for i in idioms if i in ("pos", "neg")]
         if plain:
             both = "pos" in plain and "neg" in plain
-            last_stmt = method.body[-1]
-            fall = isinstance(last_stmt, ast.Return) and isinstance(last_stmt.value, ast.Call) \
-                and call_name(last_stmt.value) == "ConditionMet" and _negation_idiom(arg_of(last_stmt.value, 0, "met")) == "neg"
-            ctx.ob("R01.2", RP, method, qual, "polarity pair", both and fall,
-                   "when the non-xor idiom is used both polarities occur and the fall-through verdict is self.negated",
+            ctx.ob("R01.2", RP, method, qual, "polarity pair", both,
+                   "when the non-xor idiom is used both polarities occur (a found term yields `not negated`, an absent one `negated`)",
                    form=f"idioms={idioms}")
 
 
@@ -252,6 +249,8 @@ def r01_4_8(ctx: Ctx) -> None:
                isinstance(local, ast.Constant) and local.value is True,
                "cds(...) evaluates its inner formula with local_only=True", form=txt(call))
         det = arg_of(call, 0, "details")
+        if det is not None:
+            det = inline_locals(func, det)
         is_just = isinstance(det, ast.Call) and last_attr(det) == "just_cds" and txt(det.func.value) == "details"  # type: ignore
         ctx.ob("R01.4", RP, call, qual, f"inner evaluation#{index} context", bool(is_just),
                "the inner formula is evaluated in a context focused on one single gene (details.just_cds(g))",
@@ -374,7 +373,11 @@ def _fold(ctx: Ctx, qual: str, kind: str) -> None:
         matches = arg_of(call, 1, "matches")
         if isinstance(matches, ast.Name):
             ups = _accumulator_updates(func, matches.id)
+            ups += [n for n in walk_local(func) if isinstance(n, ast.Expr) and isinstance(n.value, ast.Call)
+                    and isinstance(n.value.func, ast.Attribute) and txt(n.value.func.value) == matches.id]
             union = all((isinstance(u, ast.AugAssign) and isinstance(u.op, ast.BitOr) and txt(u.value).endswith(".matches"))
+                        or (isinstance(u, ast.Expr) and u.value.func.attr == "update" and len(u.value.args) == 1  # type: ignore
+                            and txt(u.value.args[0]).endswith(".matches"))  # type: ignore[attr-defined]
                         or (isinstance(u, (ast.Assign, ast.AnnAssign)) and txt(u.value) in ("set()", "set([])"))
                         for u in ups) and len(ups) >= 2
             ctx.ob("R01.5", RP, call, qual, "matches union", union,
@@ -410,27 +413,38 @@ def r01_5(ctx: Ctx) -> None:
 def r01_6(ctx: Ctx) -> None:
     qual = "MinimumCondition.is_satisfied"
     func = ctx.fn(RP, qual)
-    tests = []
-    for node in walk_local(func):
-        if isinstance(node, ast.If) and any(isinstance(s, ast.Return) and isinstance(s.value, ast.Call)
-                                            and _negation_idiom(arg_of(s.value, 0, "met") or ast.Constant(0)) == "pos"
-                                            for s in node.body):
-            tests.append(node)
-    forms = set()
-    for index, node in enumerate(tests):
+    from ..flow import path_facts
+    cfg = CFG(func)
+    returns = [n for n in walk_local(func) if isinstance(n, ast.Return) and isinstance(n.value, ast.Call)
+               and call_name(n.value) == "ConditionMet"]
+    if len(returns) < 2:
+        raise AnalysisError(f"{qual}: ConditionMet returns not found")
+    for index, ret in enumerate(returns):
+        idiom = _negation_idiom(arg_of(ret.value, 0, "met") or ast.Constant(0))
+        if idiom not in ("pos", "neg"):
+            ctx.cannot("R01.6", RP, ret, qual, f"return#{index}", f"verdict polarity not recognised: {txt(ret.value)}")
+            continue
+        facts = [(e, t) for e, t in path_facts(cfg, ret, fresh_only=True) if "self.count" in txt(e)]
         mapping = {"self.count": "K"}
-        for name in {n.id for n in ast.walk(node.test) if isinstance(n, ast.Name)} - {"self"}:
-            mapping[name] = "N"
+        terms = []
+        for expr, truth in facts:
+            for name in {n.id for n in ast.walk(expr) if isinstance(n, ast.Name)} - {"self"}:
+                mapping[name] = "N"
+            terms.append(expr if truth else ast.UnaryOp(op=ast.Not(), operand=expr))
+        if not terms:
+            ctx.ob("R01.6", RP, ret, qual, f"return#{index}", False,
+                   "every verdict of minimum(n, [...]) is decided by a comparison of the found count with n",
+                   detail="no count-vs-minimum test governs this return", form=txt(ret.value))
+            continue
+        cond = terms[0] if len(terms) == 1 else ast.BoolOp(op=ast.And(), values=terms)
+        want = "N >= K" if idiom == "pos" else "N < K"
         try:
-            ok, cex, n = decide(rename(node.test, mapping), parse("N >= K"))
-            forms.add(txt(node.test))
-            ctx.ob("R01.6", RP, node, qual, f"threshold#{index}", ok,
-                   "minimum(n, [...]) is satisfied when the number of listed profiles found is >= n",
-                   detail=f"counterexample {cex}" if cex else f"{n} orderings", form=txt(rename(node.test, mapping)))
+            ok, cex, n = decide(rename(cond, mapping), parse(want))
+            ctx.ob("R01.6", RP, ret, qual, f"return#{index} ({idiom})", ok,
+                   "minimum(n, [...]) is satisfied exactly when the number of listed profiles found is >= n",
+                   detail=f"counterexample {cex}" if cex else f"{n} orderings", form=f"{txt(rename(cond, mapping))} => {idiom}")
         except OutsideFragment as err:
-            ctx.cannot("R01.6", RP, node, qual, f"threshold#{index}", str(err))
-    ctx.ob("R01.6", RP, func, qual, "sibling thresholds", len(tests) == 2 and len(forms) == 1,
-           "both decision points (own gene, with neighbours) use the same threshold test", form=str(sorted(forms)))
+            ctx.cannot("R01.6", RP, ret, qual, f"return#{index}", str(err))
     # the count accumulates by += len(new hits) of in-range genes, starting from the own-gene hits
     incs = [n for n in walk_local(func) if isinstance(n, ast.AugAssign) and isinstance(n.op, ast.Add)]
     ok = len(incs) == 1 and txt(incs[0].value).startswith("len(") and \
@@ -441,7 +455,10 @@ def r01_6(ctx: Ctx) -> None:
            form="; ".join(stmt_key(i) for i in incs))
     qual = "ScoreCondition.is_satisfied"
     func = ctx.fn(RP, qual)
-    comps = [n for n in walk_local(func) if isinstance(n, ast.Compare) and "bitscore" in txt(n)]
+    methods = [f for q, f in ctx.repo.functions(RP) if q.startswith("ScoreCondition.")]
+    comps = [n for m in methods for n in ast.walk(m) if isinstance(n, ast.Compare) and "bitscore" in txt(n)]
+    if not comps:
+        raise AnalysisError("ScoreCondition: no bitscore comparison found")
     forms = set()
     for index, comp in enumerate(comps):
         mapping = {"self.score": "S"}
@@ -461,7 +478,7 @@ def r01_6(ctx: Ctx) -> None:
                    form=txt(par) if par is not None else txt(comp))
         except OutsideFragment as err:
             ctx.cannot("R01.6", RP, comp, qual, f"threshold#{index}", str(err))
-    ctx.ob("R01.6", RP, func, qual, "sibling thresholds", len(comps) == 2 and len(forms) == 1,
+    ctx.ob("R01.6", RP, func, qual, "sibling thresholds", len(forms) == 1,
            "own-gene and neighbour decision points use the same score test", form=str(sorted(forms)))
 
 
@@ -474,27 +491,22 @@ def r01_7(ctx: Ctx) -> None:
     if len(verdicts) != 1:
         raise AnalysisError("apply_cluster_rules: verdict variable of rule.detect(...) not found")
     verdict = verdicts.pop()
-    stores = [c for c in calls(func) if last_attr(c) in ("add", "update") and isinstance(c.func, ast.Attribute)
-              and isinstance(c.func.value, ast.Subscript)]
+    from ..flow import fact_texts, subscript_stores
+    cfg = CFG(func)
+    stores = [(c, subject) for c, subject in subscript_stores(func, func) if isinstance(c, ast.Call)]
     if len(stores) < 4:
         raise AnalysisError("apply_cluster_rules: accumulator stores not found")
-    for index, call in enumerate(stores):
+    for index, (call, subject) in enumerate(stores):
         ctx.call_sites += 1
-        gs = guards(call, stop=func)
-        conj = []
-        for test, pol in gs:
-            if pol and isinstance(test, ast.BoolOp) and isinstance(test.op, ast.And):
-                conj += [txt(v) for v in test.values]
-            elif pol:
-                conj.append(txt(test))
+        conj = fact_texts(cfg, call)
         ok = (f"{verdict}.met" in conj or verdict in conj) and f"{verdict}.matches" in conj
-        ctx.ob("R01.7", CP, call, "apply_cluster_rules", f"store#{index} {txt(call.func.value.value)}", ok,  # type: ignore
+        ctx.ob("R01.7", CP, call, "apply_cluster_rules", f"store#{index} {txt(subject.value)}", ok,
                "a gene is registered for a rule only when the verdict is met AND it has at least one reason profile",
-               form=f"{txt(call)} under {conj}")
+               form=f"{txt(call)} under {sorted(conj)}")
         loops = enclosing_loops(call, stop=func)
         inner = [lp for lp in loops if isinstance(lp, ast.For) and "ancillary_hits" in txt(lp.iter)]
         args_names = {n.id for a in call.args for n in ast.walk(a) if isinstance(n, ast.Name)}
-        key_names = {n.id for n in ast.walk(call.func.value) if isinstance(n, ast.Name)}  # type: ignore[attr-defined]
+        key_names = {n.id for n in ast.walk(subject) if isinstance(n, ast.Name)}
         if inner:
             lp = inner[0]
             ok2 = txt(lp.iter).startswith(f"{verdict}.ancillary_hits")
@@ -579,7 +591,7 @@ def run(ctx: Ctx) -> None:
     ctx.rule("R01.3", "neighbour data never flows into the reason profiles of a verdict", floor=10)
     ctx.rule("R01.4", "cds(...) evaluates its inner formula locally, on one gene, inside the cutoff", floor=8)
     ctx.rule("R01.5", "and/or fold shapes", floor=6)
-    ctx.rule("R01.6", "minimum/minscore thresholds are >= and agree at both decision points", floor=6)
+    ctx.rule("R01.6", "minimum/minscore thresholds are >= and agree at both decision points", floor=5)
     ctx.rule("R01.7", "anchoring needs verdict and non-empty reasons; neighbours come from ancillary hits", floor=6)
     ctx.rule("R01.8", "neighbour scans range over the right domain and are range-guarded", floor=4)
     r01_1(ctx)
